@@ -25,6 +25,41 @@ from .c12 import full_call_name
 ARRAY_MODULES = ["load", "classify", "rise", "recession", "zeta_grid", "simulate_rise", "simulate_recession", "pestfiles"]
 
 
+
+def _end_index(sub, grid):
+    """Index of `grid[...]` counted from the front (>= 0) or from the back
+    (< 0): constants, and len(grid) - k."""
+    if not (isinstance(sub, ast.Subscript) and ast.unparse(sub.value).replace(" ", "") == grid):
+        return None
+    try:
+        p = py_poly(sub.slice, callname=lambda c: "LEN" if isinstance(c.func, ast.Name) and c.func.id == "len"
+                    and len(c.args) == 1 and ast.unparse(c.args[0]).replace(" ", "") == grid else None)
+    except Exception:
+        return None
+    c = p.const_value()
+    if c is not None:
+        return int(c) if c == int(c) else None
+    ats = sorted(p.atoms())
+    if len(ats) == 1 and ats[0].startswith("LEN(") and p.coeff_of_atom(ats[0]).const_value() == 1:
+        k = p.without_atom(ats[0]).const_value()
+        if k is not None and k == int(k) and k < 0:
+            return int(k)
+    return None
+
+
+def _list_ends(expr, grid):
+    """(first index, last index) of `[grid[i]] + ... + [grid[j]]`, else None."""
+    first = expr
+    while isinstance(first, ast.BinOp) and isinstance(first.op, ast.Add):
+        first = first.left
+    last = expr.right if isinstance(expr, ast.BinOp) else None
+    if not (isinstance(first, ast.List) and len(first.elts) == 1 and isinstance(last, ast.List) and len(last.elts) == 1):
+        return None
+    i, j = _end_index(first.elts[0], grid), _end_index(last.elts[0], grid)
+    if i is None or j is None:
+        return None
+    return (i, j)
+
 def run(ctx, chk, tier="quick"):
     chk.explanation = (
         "SQL ASTs of the grid query and of the two INSERT ... SELECT copies with their parameter "
@@ -391,13 +426,12 @@ def run(ctx, chk, tier="quick"):
         for n in ast.walk(wl.node):
             if isinstance(n, ast.Assign) and isinstance(n.value, ast.BinOp) and isinstance(n.value.op, ast.Add):
                 txt = ast.unparse(n.value).replace(" ", "")
-                import re as _re2
-                mm = _re2.match(r"^\[%s\[(-?\d+)\]\]\+.*\+\[%s\[(-?\d+)\]\]$" % (gridp, gridp), txt)
-                if mm and (mm.group(1), mm.group(2)) != ("0", "-1"):
+                ends = _list_ends(n.value, gridp)
+                if ends is not None and ends != (0, -1):
                     bdesc = ast.unparse(n.value)[:120]
                     bnd_ok = False
                     ends_wrong = True
-                if txt.startswith("[%s[0]]+" % gridp) and txt.endswith("+[%s[-1]]" % gridp):
+                if ends == (0, -1):
                     bdesc = ast.unparse(n.value)[:120]
                     mid = n.value.left.right if isinstance(n.value.left, ast.BinOp) else None
                     mt = ast.unparse(mid).replace(" ", "") if mid is not None else ""
